@@ -349,6 +349,13 @@ fn sem_hex() -> Option<String> {
             let (lo, up) = match p { None => (format!("{:x}", a), format!("{:X}", a)), Some(p) => (format!("{:.*x}", p, a), format!("{:.*X}", p, a)) };
             if lo != hex_model(&a, p, false) { return Some(format!("{{:x}} of GenericArray<u8, U{n}> with precision {p:?}: got {} chars ({:?}...), want {}", lo.len(), &lo[..lo.len().min(12)], hex_model(&a, p, false).len())); }
             if up != hex_model(&a, p, true) { return Some(format!("{{:X}} of GenericArray<u8, U{n}> with precision {p:?} differs from the bytes' digits")); }
+            // "and nothing else": a width / fill / alignment flag adds no characters
+            for w in [1usize, 2 * n + 3, 12] {
+                let (wl, wz) = match p { None => (format!("{:>w$x}", a, w = w), format!("{:0w$X}", a, w = w)), Some(p) => (format!("{:>w$.p$x}", a, w = w, p = p), format!("{:0w$.p$X}", a, w = w, p = p)) };
+                if wl != hex_model(&a, p, false) || wz != hex_model(&a, p, true) {
+                    return Some(format!("GenericArray<u8, U{n}> with precision {p:?} and width {w}: {} / {} chars printed, the digits are {}", wl.len(), wz.len(), hex_model(&a, p, false).len()));
+                }
+            }
         }
     }} }
     one!(U0); one!(U1); one!(U2); one!(U3); one!(U7); one!(U15); one!(U16); one!(U17); one!(U31); one!(U32); one!(U33);
